@@ -64,7 +64,7 @@ def band_limit_candidates(smoothed, ratio, ulps=8):
     does not say whether equality counts) may be resolved either way. Returns (first_ok, last_ok, peak_indices)."""
     m = max(smoothed)
     lim = m * ratio
-    slack = ulps * 2.220446049250313e-16 * abs(lim)
+    slack = max(ulps * 2.220446049250313e-16 * abs(lim), 2e-323)   # a few subnormal steps when the limit itself is subnormal
     state = []
     for s in smoothed:
         if s > lim + slack:
